@@ -39,7 +39,7 @@ man = {
     "hooks": {"guard": "verif",
               "enable": "go build -tags verif (the harness module go/ replaces the repository module by /repo)",
               "baseline_off_cmd": "cd /repo && go test -mod=mod -json -vet=off -count=1 -timeout 25m ./...",
-              "source_commits": ["11bcaee"], "add_only": True},
+              "source_commits": ["11bcaee", "8b1c713"], "add_only": True},
     "engines": [{"name": "lean4-proof+correspondence", "path": "/verif/check",
                  "serves_properties": [c["property_id"] for c in checks],
                  "kind_free_text": "Lean 4 model + theorems (lean/), translator go/cmd/extract regenerating lean/PttVerif/Gen/*.lean from /repo on every run, per-property Go harness (go/cmd/cXX) driving the real code in-process and a compiled Lean driver running the model on the same op lines; ./check diffs them, evaluates the property oracle, audits axioms"}],
